@@ -10,21 +10,21 @@ open Knut.Generated.ProcOrder
 ComputePrices, check, Valuate, ComputeValues, ComputeFlows (both of the ONE local `calculator := &performance.Calculator{…}`), Perf. -/
 theorem returnsOrder_eq : returnsOrder =
     ["journal.ComputePrices", "check.Check", "journal.Valuate", "(*performance.Calculator).ComputeValues",
-     "(*performance.Calculator).ComputeFlows", "performance.Perf"] := rfl
+     "(*performance.Calculator).ComputeFlows", "performance.Perf"] := by decide
 
 theorem returnsCalls_eq : returnsCalls =
     [("journal.ComputePrices", ["valuation"]), ("check.Check", []), ("journal.Valuate", ["reg", "valuation"]),
      ("(*performance.Calculator).ComputeValues", []), ("(*performance.Calculator).ComputeFlows", []),
-     ("performance.Perf", ["j", "partition"])] := rfl
+     ("performance.Perf", ["j", "partition"])] := by decide
 
 /-- `knut portfolio weights` (`cmd/commands/portfolio/weights.go`): the four translated stages of `TransProcessAllWeights.weightsSys`
 — ComputePrices, check, Valuate, ComputeValues — followed by the (untranslated) `weights.Query{…}.Execute(j, rep)` as LAST stage. -/
 theorem weightsOrder_eq : weightsOrder =
     ["journal.ComputePrices", "check.Check", "journal.Valuate", "(*performance.Calculator).ComputeValues",
-     "weights.Query.Execute"] := rfl
+     "weights.Query.Execute"] := by decide
 
 theorem weightsCalls_eq : weightsCalls =
     [("journal.ComputePrices", ["valuation"]), ("check.Check", []), ("journal.Valuate", ["reg", "valuation"]),
-     ("(*performance.Calculator).ComputeValues", []), ("weights.Query.Execute", ["j", "rep"])] := rfl
+     ("(*performance.Calculator).ComputeValues", []), ("weights.Query.Execute", ["j", "rep"])] := by decide
 
 end Knut.FactsAgree.ProcOrder
